@@ -4,6 +4,7 @@ set -e
 cd "$(dirname "$0")"
 export GOFLAGS=-mod=mod GOPROXY=off
 python3 lib/gen_main.py
+python3 lib/regen_all.py
 (cd lean && lake build Dawgs dawgsmodel)
 cp /repo/go.sum harness/go.sum
 (cd harness && go build -tags verif -o bin/harness .)
